@@ -99,6 +99,7 @@ WinExprs(t) ==
         \o MapS(o2, LAMBDA os : Shift(Col(x), 1, <<>>, os))
         \o MapS(Take(o2, 1), LAMBDA os : Shift(Col(x), -1, <<LitI(0)>>, os))
         \o MapS(o2, LAMBDA os : Win("cum_sum", <<Col(x)>>, os))
+        \o <<Win("cum_sum", <<Col(x)>>, <<>>)>>          \* arrange=[]: the current row order (value undefined here, the query must still compile)
         \o <<Agg("sum", Col(x)), Agg("max", Col(iv[1])), Len0>>
         \o <<Win("row_number", <<>>, <<>>), Shift(Col(x), 1, <<>>, <<>>)>>
         \o Flat(MapS(gp, LAMBDA g : <<WinP("row_number", <<>>, IF o2 = <<>> THEN o1[1] ELSE o2[1], <<Col(g)>>),
